@@ -410,8 +410,250 @@ theorem wf_addFramer {s : St} (h : WF s) (i : Nat) : WF (allocFramer s i) := by
     · exact h1.framersLt e he
     · subst he; simp only; omega
 
+/-! ### instance labels -/
+
+/-- instance labels are never reused -/
+def IdsOk (s : St) : Prop := (s.insts.map Inst.id).Nodup ∧ ∀ i ∈ s.insts, i.id < s.nextInst
+
+theorem idsOk_register {s : St} (h : IdsOk s) (cls : Cls) (d : Nat) (name : Str) :
+    IdsOk (register s cls d name).1 := by
+  obtain ⟨h1, h2⟩ := h
+  constructor
+  · simp only [register, List.map_append, List.map_cons, List.map_nil]
+    rw [List.nodup_append]
+    refine ⟨h1, by simp, ?_⟩
+    intro a ha b hb
+    simp only [List.mem_singleton] at hb
+    subst hb
+    obtain ⟨i, hi, rfl⟩ := List.mem_map.mp ha
+    exact Nat.ne_of_lt (h2 i hi)
+  · intro i hi
+    simp only [register, List.mem_append, List.mem_singleton] at hi ⊢
+    rcases hi with hi | hi
+    · have := h2 i hi; omega
+    · subst hi; simp
+
+theorem idsOk_of_same {s s' : St} (h : IdsOk s) (e1 : s'.insts = s.insts) (e2 : s'.nextInst = s.nextInst) :
+    IdsOk s' := by
+  unfold IdsOk; rw [e1, e2]; exact h
+
+theorem idsOk_registrarInit {s : St} (h : IdsOk s) (cls : Cls) (name : Str) (letters : List Char) :
+    IdsOk (registrarInit s cls name letters).1 := by
+  have h1 : IdsOk (setCounter s (getCounter s cls + 1) cls) := idsOk_of_same h (by simp) (by simp)
+  unfold registrarInit
+  simp only
+  split
+  · split
+    · exact h1
+    · exact idsOk_register h1 _ _ _
+  · split
+    · exact h1
+    · exact idsOk_register h1 _ _ _
+
+theorem eq_of_nodup_map_id {l : List Inst} (h : (l.map Inst.id).Nodup) {a b : Inst}
+    (ha : a ∈ l) (hb : b ∈ l) (e : a.id = b.id) : a = b := by
+  induction l with
+  | nil => simp at ha
+  | cons x xs ih =>
+    simp only [List.map_cons, List.nodup_cons, List.mem_map, not_exists, not_and] at h
+    rcases List.mem_cons.mp ha with ha1 | ha1 <;> rcases List.mem_cons.mp hb with hb1 | hb1
+    · rw [ha1, hb1]
+    · rw [ha1] at e; exact absurd e.symm (h.1 b hb1)
+    · rw [hb1] at e; exact absurd e (h.1 a ha1)
+    · exact ih h.2 ha1 hb1
+
+/-! ### removal -/
+
+theorem dget_derase_ne (d : Dict) {k j : Str} (h : k ≠ j) : dget (derase d k) j = dget d j := by
+  induction d with
+  | nil => rfl
+  | cons e rest ih =>
+    obtain ⟨k', v⟩ := e
+    by_cases hk : k' = k
+    · subst hk; simp [derase, dget, h]
+    · by_cases hj : k' = j
+      · subst hj; simp [derase, dget, hk]
+      · simp [derase, dget, hk, hj, ih]
+
+theorem dkeys_derase_sublist (d : Dict) (k : Str) : (dkeys (derase d k)).Sublist (dkeys d) := by
+  induction d with
+  | nil => exact List.Sublist.refl _
+  | cons e rest ih =>
+    obtain ⟨k', v⟩ := e
+    by_cases hk : k' = k
+    · simp [derase, dkeys, hk]
+    · simp only [derase, hk, if_false, dkeys, List.map_cons]
+      exact List.Sublist.cons_cons _ ih
+
+theorem dget_derase_self {d : Dict} (hn : (dkeys d).Nodup) (k : Str) : dget (derase d k) k = none := by
+  induction d with
+  | nil => rfl
+  | cons e rest ih =>
+    obtain ⟨k', v⟩ := e
+    simp only [dkeys, List.map_cons, List.nodup_cons] at hn
+    by_cases hk : k' = k
+    · subst hk
+      simp only [derase, if_true]
+      exact dget_none_iff.mpr hn.1
+    · simp [derase, dget, hk, ih hn.2]
+
+theorem findInst_some {l : List Inst} {i : Nat} {r : Inst} (h : findInst l i = some r) :
+    r ∈ l ∧ r.id = i := by
+  induction l with
+  | nil => simp [findInst] at h
+  | cons x xs ih =>
+    simp only [findInst] at h
+    split at h
+    · next e => simp only [Option.some.injEq] at h; subst h; exact ⟨List.mem_cons_self .., e⟩
+    · exact ⟨List.mem_cons_of_mem _ (ih h).1, (ih h).2⟩
+
+theorem getNames_unregister (s : St) (i : Nat) (c : Cls) : getNames (unregister s i) c = getNames s c := by
+  unfold unregister
+  split
+  · rfl
+  · dsimp only
+    split
+    · cases c <;> rfl
+    · rfl
+
+theorem idsOk_unregister {s : St} (h : IdsOk s) (i : Nat) : IdsOk (unregister s i) := by
+  unfold unregister
+  split
+  · exact h
+  · dsimp only
+    split
+    · constructor
+      · exact List.Nodup.sublist (List.Sublist.map _ List.filter_sublist) h.1
+      · intro j hj
+        exact h.2 j (List.mem_filter.mp hj).1
+    · exact h
+
+theorem wf_unregister {s : St} (h : WF s) (hi : IdsOk s) (i : Nat) : WF (unregister s i) := by
+  unfold unregister
+  split
+  · exact h
+  · next r hf =>
+    dsimp only
+    split
+    · next hc =>
+      have hr := findInst_some hf
+      have hd : getNames s (.sub .framer) < s.nextDict := h.boundLt _
+      generalize hdd : getNames s (.sub .framer) = d at hc hd
+      obtain ⟨c0, hrec⟩ := h.entryInst d r.name i hc
+      refine ⟨?_, ?_, ?_, ?_, ?_, ?_, h.housesLt, h.framersLt⟩
+      · intro d'
+        simp only [setHeap]
+        by_cases e : d' = d
+        · subst e; simp only [if_true]
+          exact List.Nodup.sublist (dkeys_derase_sublist _ _) (h.keysNodup d')
+        · simp only [e, if_false]; exact h.keysNodup d'
+      · intro j hj
+        have hj' := List.mem_filter.mp hj
+        have hne : j.id ≠ i := by simpa using hj'.2
+        have hin := h.instsIn j hj'.1
+        simp only [setHeap]
+        by_cases e : j.dict = d
+        · simp only [e, if_true]
+          by_cases en : r.name = j.name
+          · rw [e, ← en, hc] at hin
+            exact absurd (Option.some.inj hin).symm hne
+          · rw [dget_derase_ne _ en]; rw [e] at hin; exact hin
+        · simp only [e, if_false]; exact hin
+      · intro d' n v hv
+        simp only [setHeap] at hv
+        have key : ∀ c, (⟨v, c, n, d'⟩ : Inst) ∈ s.insts → v ≠ i →
+            (⟨v, c, n, d'⟩ : Inst) ∈ s.insts.filter (fun x => x.id != i) := by
+          intro c hm hne
+          exact List.mem_filter.mpr ⟨hm, by simpa using hne⟩
+        by_cases e : d' = d
+        · subst e
+          simp only [if_true] at hv
+          have hnn : r.name ≠ n := by
+            intro en; subst en
+            rw [dget_derase_self (h.keysNodup d')] at hv; simp at hv
+          rw [dget_derase_ne _ hnn] at hv
+          obtain ⟨c, hm⟩ := h.entryInst d' n v hv
+          refine ⟨c, key c hm ?_⟩
+          intro ev; subst ev
+          have := eq_of_nodup_map_id hi.1 hm hrec rfl
+          simp only [Inst.mk.injEq, true_and] at this
+          exact hnn this.2.1.symm
+        · simp only [e, if_false] at hv
+          obtain ⟨c, hm⟩ := h.entryInst d' n v hv
+          refine ⟨c, key c hm ?_⟩
+          intro ev; subst ev
+          have := eq_of_nodup_map_id hi.1 hm hrec rfl
+          simp only [Inst.mk.injEq, true_and] at this
+          exact e this.2.2
+      · intro j hj
+        exact h.idsLt j (List.mem_filter.mp hj).1
+      · intro c
+        have : getNames { setHeap s d (derase (s.heap d) r.name) with
+            insts := s.insts.filter (fun x => x.id != i) } c = getNames s c := by cases c <;> rfl
+        rw [this]; exact h.boundLt c
+      · intro d' hd'
+        simp only [setHeap] at hd' ⊢
+        have : d' ≠ d := by omega
+        simp only [this, if_false]
+        exact h.emptyBeyond d' hd'
+    · exact h
+
+theorem idsOk_step {s : St} (h : IdsOk s) (op : Op) : IdsOk (step s op).1 := by
+  cases op with
+  | new cls name letters =>
+    have h1 := idsOk_registrarInit h cls name letters
+    simp only [step]
+    cases hr : registrarInit s cls name letters with
+    | mk s1 r =>
+      rw [hr] at h1
+      cases r with
+      | error e => exact h1
+      | ok p =>
+        obtain ⟨nm, i⟩ := p
+        simp only at h1 ⊢
+        split
+        · exact idsOk_of_same h1 rfl rfl
+        · exact h1
+  | newHouse name letters =>
+    have h1 := idsOk_registrarInit h (.root .house) name letters
+    simp only [step]
+    cases hr : registrarInit s (.root .house) name letters with
+    | mk s1 r =>
+      rw [hr] at h1
+      cases r with
+      | error e => exact h1
+      | ok p =>
+        obtain ⟨nm, i⟩ := p
+        simp only at h1 ⊢
+        have h2 : IdsOk (allocHouse s1 i) := idsOk_of_same h1 rfl rfl
+        have h3 := idsOk_registrarInit h2 (.root .store) nm []
+        cases hr2 : registrarInit (allocHouse s1 i) (.root .store) nm [] with
+        | mk s3 r2 => rw [hr2] at h3; cases r2 <;> exact h3
+  | clear cls => exact idsOk_of_same h (by simp [step, clear]) (by simp [step, clear])
+  | clearRegistries => exact idsOk_of_same h (by simp [step, clear]) (by simp [step, clear])
+  | assignRegistries k =>
+    simp only [step]
+    split
+    · exact h
+    · exact idsOk_of_same h (by simp) (by simp)
+  | assignFrameRegistry k =>
+    simp only [step]
+    split
+    · exact h
+    · exact idsOk_of_same h (by simp) (by simp)
+  | prune k =>
+    simp only [step]
+    split
+    · exact h
+    · exact idsOk_unregister h _
+
+theorem idsOk_run {s : St} (h : IdsOk s) (ops : List Op) : IdsOk (run s ops) := by
+  induction ops generalizing s with
+  | nil => exact h
+  | cons op ops ih => exact ih (idsOk_step h op)
+
 /-- every operation preserves the invariant -/
-theorem wf_step {s : St} (h : WF s) (op : Op) : WF (step s op).1 := by
+theorem wf_step {s : St} (h : WF s) (hi : IdsOk s) (op : Op) : WF (step s op).1 := by
   cases op with
   | new cls name letters =>
     simp only [step]
@@ -468,111 +710,15 @@ theorem wf_step {s : St} (h : WF s) (op : Op) : WF (step s op).1 := by
       have hm : (fi, d) ∈ s.framerDicts := List.mem_of_getElem? hk
       have hlt := h.framersLt _ hm
       exact wf_setCounter (wf_setNames h hlt (.root .frame)) 0 (.root .frame)
-
-theorem wf_run {s : St} (h : WF s) (ops : List Op) : WF (run s ops) := by
-  induction ops generalizing s with
-  | nil => exact h
-  | cons op ops ih => exact ih (wf_step h op)
-
-/-! ### instance labels -/
-
-/-- instance labels are never reused -/
-def IdsOk (s : St) : Prop := (s.insts.map Inst.id).Nodup ∧ ∀ i ∈ s.insts, i.id < s.nextInst
-
-theorem idsOk_register {s : St} (h : IdsOk s) (cls : Cls) (d : Nat) (name : Str) :
-    IdsOk (register s cls d name).1 := by
-  obtain ⟨h1, h2⟩ := h
-  constructor
-  · simp only [register, List.map_append, List.map_cons, List.map_nil]
-    rw [List.nodup_append]
-    refine ⟨h1, by simp, ?_⟩
-    intro a ha b hb
-    simp only [List.mem_singleton] at hb
-    subst hb
-    obtain ⟨i, hi, rfl⟩ := List.mem_map.mp ha
-    exact Nat.ne_of_lt (h2 i hi)
-  · intro i hi
-    simp only [register, List.mem_append, List.mem_singleton] at hi ⊢
-    rcases hi with hi | hi
-    · have := h2 i hi; omega
-    · subst hi; simp
-
-theorem idsOk_of_same {s s' : St} (h : IdsOk s) (e1 : s'.insts = s.insts) (e2 : s'.nextInst = s.nextInst) :
-    IdsOk s' := by
-  unfold IdsOk; rw [e1, e2]; exact h
-
-theorem idsOk_registrarInit {s : St} (h : IdsOk s) (cls : Cls) (name : Str) (letters : List Char) :
-    IdsOk (registrarInit s cls name letters).1 := by
-  have h1 : IdsOk (setCounter s (getCounter s cls + 1) cls) := idsOk_of_same h (by simp) (by simp)
-  unfold registrarInit
-  simp only
-  split
-  · split
-    · exact h1
-    · exact idsOk_register h1 _ _ _
-  · split
-    · exact h1
-    · exact idsOk_register h1 _ _ _
-
-theorem idsOk_step {s : St} (h : IdsOk s) (op : Op) : IdsOk (step s op).1 := by
-  cases op with
-  | new cls name letters =>
-    have h1 := idsOk_registrarInit h cls name letters
-    simp only [step]
-    cases hr : registrarInit s cls name letters with
-    | mk s1 r =>
-      rw [hr] at h1
-      cases r with
-      | error e => exact h1
-      | ok p =>
-        obtain ⟨nm, i⟩ := p
-        simp only at h1 ⊢
-        split
-        · exact idsOk_of_same h1 rfl rfl
-        · exact h1
-  | newHouse name letters =>
-    have h1 := idsOk_registrarInit h (.root .house) name letters
-    simp only [step]
-    cases hr : registrarInit s (.root .house) name letters with
-    | mk s1 r =>
-      rw [hr] at h1
-      cases r with
-      | error e => exact h1
-      | ok p =>
-        obtain ⟨nm, i⟩ := p
-        simp only at h1 ⊢
-        have h2 : IdsOk (allocHouse s1 i) := idsOk_of_same h1 rfl rfl
-        have h3 := idsOk_registrarInit h2 (.root .store) nm []
-        cases hr2 : registrarInit (allocHouse s1 i) (.root .store) nm [] with
-        | mk s3 r2 => rw [hr2] at h3; cases r2 <;> exact h3
-  | clear cls => exact idsOk_of_same h (by simp [step, clear]) (by simp [step, clear])
-  | clearRegistries => exact idsOk_of_same h (by simp [step, clear]) (by simp [step, clear])
-  | assignRegistries k =>
+  | prune k =>
     simp only [step]
     split
     · exact h
-    · exact idsOk_of_same h (by simp) (by simp)
-  | assignFrameRegistry k =>
-    simp only [step]
-    split
-    · exact h
-    · exact idsOk_of_same h (by simp) (by simp)
+    · exact wf_unregister h hi _
 
-theorem idsOk_run {s : St} (h : IdsOk s) (ops : List Op) : IdsOk (run s ops) := by
+theorem wf_run {s : St} (h : WF s) (hi : IdsOk s) (ops : List Op) : WF (run s ops) := by
   induction ops generalizing s with
   | nil => exact h
-  | cons op ops ih => exact ih (idsOk_step h op)
-
-theorem eq_of_nodup_map_id {l : List Inst} (h : (l.map Inst.id).Nodup) {a b : Inst}
-    (ha : a ∈ l) (hb : b ∈ l) (e : a.id = b.id) : a = b := by
-  induction l with
-  | nil => simp at ha
-  | cons x xs ih =>
-    simp only [List.map_cons, List.nodup_cons, List.mem_map, not_exists, not_and] at h
-    rcases List.mem_cons.mp ha with ha1 | ha1 <;> rcases List.mem_cons.mp hb with hb1 | hb1
-    · rw [ha1, hb1]
-    · rw [ha1] at e; exact absurd e.symm (h.1 b hb1)
-    · rw [hb1] at e; exact absurd e (h.1 a ha1)
-    · exact ih h.2 ha1 hb1
+  | cons op ops ih => exact ih (wf_step h hi op) (idsOk_step hi op)
 
 end Ioflo.Registry
